@@ -64,14 +64,34 @@ func C01(c *Ctx) {
 					nterm = 65
 				}
 			}
+			// very rarely: hundreds of terms (pool-bypass or chunking thresholds at 256/512/1024);
+			// the terms reuse three point objects so that the model needs three multiplications
+			huge := false
+			if r.Chance(1, 300) {
+				huge = true
+				nterm = []int{255, 256, 257, 300}[r.Intn(4)]
+				if c.Thorough() {
+					nterm = []int{255, 256, 257, 300, 511, 512, 513, 1023, 1024, 1025}[r.Intn(10)]
+				}
+				c.Tally("multi-scalar calls with 255..1025 terms")
+			}
 			special := r.Intn(6)
-			for j := 0; j < nterm; j++ {
-				scs = append(scs, r.Scalar())
-				pts = append(pts, r.Point())
+			if huge {
+				special = 5
+				base := []gen.PC{r.Point(), r.Point(), r.Point()}
+				for j := 0; j < nterm; j++ {
+					scs = append(scs, r.Scalar())
+					pts = append(pts, base[j%3])
+				}
+			} else {
+				for j := 0; j < nterm; j++ {
+					scs = append(scs, r.Scalar())
+					pts = append(pts, r.Point())
+				}
 			}
 			// zero and one scalars, identity and repeated-by-value points are ordinary inputs of
 			// multi-scalar calls (batch verification with trivial terms) and typical fast-path bait
-			if nterm >= 1 {
+			if nterm >= 1 && !huge {
 				switch r.Intn(8) {
 				case 0:
 					scs[r.Intn(nterm)] = gen.SC{K: big.NewInt(0), Class: "zero"}
@@ -121,8 +141,21 @@ func C01(c *Ctx) {
 			want = ref.Add(ref.Mul(scs[0].K, pts[0].M), ref.Mul(scs[1].K, ref.Base()))
 		default:
 			want = ref.Identity()
-			for j := range pts {
-				want = ref.Add(want, ref.Mul(scs[j].K, pts[j].M))
+			if len(pts) >= 200 { // terms cycle through three point objects: sum the integers per object
+				var sums [3]*big.Int
+				for j := range pts {
+					if sums[j%3] == nil {
+						sums[j%3] = new(big.Int)
+					}
+					sums[j%3].Add(sums[j%3], scs[j].K)
+				}
+				for d := 0; d < 3; d++ {
+					want = ref.Add(want, ref.Mul(sums[d], pts[d].M))
+				}
+			} else {
+				for j := range pts {
+					want = ref.Add(want, ref.Mul(scs[j].K, pts[j].M))
+				}
 			}
 		}
 		// library operands; the scalar value is cross-checked through Bytes
